@@ -4,12 +4,16 @@ import LenaModel.Model.C04
 The definitions that the *statements* of the theorems in `Props/C04.lean` mention besides the transcribed
 model: which objects an event hands out (`handCells`, `Disj`), the run of one branch alone (`preload`,
 `aloneStep`, `aloneLife`, `aloneTrace`, `aloneFill`, `aloneFillLife`, the schedules `SchedOK`, `FillOK`),
-locality (`foot`, `Local`), freshness (`InRange`, `FreshYield`) and histories of an accumulator (`HOp`,
-`runHist`, `fillAll`).  They are not transcriptions of lena; they live in a `Model` file (no proofs, no
+locality (`foot`, `Local`; with the fine footprint `footF`, `LocalF`), freshness (`InRange`, `FreshYield`; for
+objects with several namespaces `FreshYieldG`, `FilledOld`), histories of an accumulator (`HOp`, `runHist`,
+`fillAll`) and the purpose clause (`RefsBelow`, `Tidy`, `runHistS`, `stripExt`, `Downstream`).  They are not transcriptions of lena; they live in a `Model` file (no proofs, no
 imports except the model) so that `drivers/C04.lean` can execute them on the generated cases:
 the harness compares `aloneTrace` with the real branch run alone, `Disj`/`handCells` and the copy flags with
-probes in the real run, `runHist`/`fillAll` with the step-by-step execution, and checks the instances of
-`Local` and `FreshYield` on every invocation it performs. -/
+probes in the real run, `runHist`/`fillAll` with the step-by-step execution, checks the instances of
+`Local` (`refs_sub`, `frame`; not `det`) and `FreshYield` on every invocation it performs, and evaluates
+`SchedOK`/`FillOK` (through the tests `schedOKb`/`fillOKb`, proved equivalent in `Lemmas/C04Hist.lean`) on the
+schedules read off the `hand` events.  `Downstream`, `Tidy`, `FreshYieldG` are not executed (they quantify over all
+heaps / states); their non-vacuity is shown by `example`s in `Props/C04.lean`. -/
 
 namespace Lena.C04
 
@@ -266,42 +270,15 @@ def listEqb {α : Type} (eq : α → α → Bool) : List α → List α → Bool
   | a :: l, b :: m => eq a b && listEqb eq l m
   | _, _ => false
 
-theorem listEqb_iff {α : Type} (eq : α → α → Bool) (h : ∀ a b, eq a b = true ↔ a = b) :
-    ∀ l m : List α, listEqb eq l m = true ↔ l = m
-  | [], [] => by simp [listEqb]
-  | [], _ :: _ => by simp [listEqb]
-  | _ :: _, [] => by simp [listEqb]
-  | a :: l, b :: m => by simp [listEqb, h, listEqb_iff eq h l m]
-
 def itemEqb (eqS : S → S → Bool) (x y : Item S) : Bool := eqS x.skel y.skel && x.cells == y.cells
-
-theorem itemEqb_iff (eqS : S → S → Bool) (h : ∀ a b, eqS a b = true ↔ a = b) (x y : Item S) :
-    itemEqb eqS x y = true ↔ x = y := by
-  cases x; cases y
-  simp [itemEqb, h]
 
 /-- `SchedOK` as a test, for an equality test `eqS` of skeletons -/
 def schedOKb (eqS : S → S → Bool) (i : Nat) (e : List (Item S) × List (Item S) × Bool) : Bool :=
   listEqb eqS (e.2.1.map (·.skel)) (e.1.map (·.skel)) && (e.2.2 || listEqb (itemEqb eqS) e.2.1 e.1) &&
   (!e.2.2 || (cellsOf e.2.1).all (fun t => t.1 == copyNsOf i))
 
-/-- the test decides `SchedOK` when `eqS` decides equality -/
-theorem schedOKb_iff (eqS : S → S → Bool) (h : ∀ a b, eqS a b = true ↔ a = b) (i : Nat)
-    (e : List (Item S) × List (Item S) × Bool) : schedOKb eqS i e = true ↔ SchedOK i e := by
-  obtain ⟨bl, buf, c⟩ := e
-  simp only [schedOKb, SchedOK, Bool.and_eq_true, Bool.or_eq_true, listEqb_iff eqS h,
-    listEqb_iff (itemEqb eqS) (itemEqb_iff eqS h), Bool.not_eq_true', List.all_eq_true, beq_iff_eq]
-  cases c <;> simp [and_assoc]
-
 /-- `FillOK` as a test -/
 def fillOKb (eqS : S → S → Bool) (i : Nat) (e : Item S × Item S × Bool) : Bool :=
   eqS e.2.1.skel e.1.skel && (e.2.2 || itemEqb eqS e.2.1 e.1) && (!e.2.2 || e.2.1.cells.all (fun t => t.1 == copyNsOf i))
-
-theorem fillOKb_iff (eqS : S → S → Bool) (h : ∀ a b, eqS a b = true ↔ a = b) (i : Nat)
-    (e : Item S × Item S × Bool) : fillOKb eqS i e = true ↔ FillOK i e := by
-  obtain ⟨x, y, c⟩ := e
-  simp only [fillOKb, FillOK, Bool.and_eq_true, Bool.or_eq_true, h, itemEqb_iff eqS h, Bool.not_eq_true',
-    List.all_eq_true, beq_iff_eq]
-  cases c <;> simp [and_assoc]
 
 end Lena.C04
